@@ -420,7 +420,8 @@ pub mod implementations {
         let var = ctx.pop();
 
         let ret = if let Some(primitive) = var {
-            ReturnValue::Value(primitive)
+            // a pointer to an element, a field or a map entry is returned as the value it denotes now
+            ReturnValue::Value(primitive.move_out_of_heap_primitive()?)
         } else {
             ReturnValue::NoValue
         };
